@@ -1823,10 +1823,19 @@ func (nm *NodeMachine) CheckCrashImage(k int, before, after Snap) error {
 			expectOK = false
 		}
 	}
-	werr := img.State.Walk(src.Blocks[tip].ID, false)
+	var werr error
+	if expectOK && img.Miner != nil && img.Cons != nil {
+		// the restarted node's own procedure: the start of the real miner loop (a plain Walk on HEAD)
+		werr = img.MinerStartSync(2 * time.Second)
+		if werr == nil && !bytes.Equal(img.State.GetLatestBlockid(), src.Blocks[tip].ID) {
+			werr = fmt.Errorf("the miner loop asks for its turn while the state machine is not at the ledger tip")
+		}
+	} else {
+		werr = img.State.Walk(src.Blocks[tip].ID, false)
+	}
 	WaitAsync()
 	if (werr == nil) != expectOK {
-		return fmt.Errorf("after restart Walk(%s -> ledger tip %s) returned %v, an uninterrupted run expects success=%v", src.Blocks[ptr].Label, src.Blocks[tip].Label, werr, expectOK)
+		return fmt.Errorf("after restart the synchronisation (%s -> ledger tip %s) returned %v, an uninterrupted run expects success=%v", src.Blocks[ptr].Label, src.Blocks[tip].Label, werr, expectOK)
 	}
 	if werr == nil {
 		pool2, err := img.State.GetUnconfirmedTx(false)
